@@ -75,23 +75,29 @@ def run(ctx):
 
     r3 = ctx.rule("C13.3", "_notify swaps the callback list before iterating it", floor=2)
     nf = m.func("Promise._notify")
-    loops = [n for n in ast.walk(nf) if isinstance(n, ast.For)]
-    if len(loops) != 2:
-        raise AnalysisError(f"_notify: expected 2 notification loops, found {len(loops)}", "Promise._notify")
+    ncfg = CFG(nf)
+    loops = [n for n in ncfg.nodes if n.kind == "test" and isinstance(n.ast, ast.For) and any(isinstance(c, ast.Call) and src(c.func) == src(n.ast.target) for b in n.ast.body for c in ast.walk(b))]
+    if not loops:
+        raise AnalysisError("_notify: no loop invoking callbacks found", "Promise._notify")
     for lp in loops:
-        it = src(lp.iter)
-        blk = m.parent[lp]
-        body = blk.body if lp in getattr(blk, "body", []) else blk.orelse
-        i = body.index(lp)
-        before = [src(s) for s in body[:i]]
-        alias_def = next((s for s in before if s.startswith(f"{it} = self._")), None)
-        ok = isinstance(lp.iter, ast.Name) and alias_def is not None
-        attr = alias_def.split(" = ")[1] if alias_def else None
-        rebound = attr is not None and (f"{attr} = []" in before and before.index(f"{attr} = []") > before.index(alias_def))
-        other = "self._rejectors" if attr == "self._resolvers" else "self._resolvers"
-        cleared = f"{other}.clear()" in before or f"{other} = []" in before
-        calls_each = len(lp.body) == 1 and isinstance(lp.body[0], ast.Expr) and isinstance(lp.body[0].value, ast.Call) and src(lp.body[0].value.func) == src(lp.target)
-        r3.check(ok and rebound and cleared and calls_each, f"{m.rel}:Promise._notify:{attr}", f"the loop over `{it}` does not iterate a local alias taken before the attribute is rebound to a fresh list (and the other list discarded): callbacks could run twice or be lost when then() is called during notification", m.rel, lp.lineno)
+        it = lp.ast.iter
+        its = src(it)
+        if its in ("self._resolvers", "self._rejectors") or (isinstance(it, ast.Call) and any(a in its for a in ("self._resolvers", "self._rejectors"))):
+            r3.violation(f"{m.rel}:Promise._notify:iterates {its}", f"_notify iterates `{its}` (the live attribute, or a copy of it that is not detached first): a then() issued from inside a callback re-enters _notify and callbacks run twice or are lost", m.rel, lp.lineno)
+            continue
+        if not isinstance(it, ast.Name):
+            raise AnalysisError(f"_notify: loop iterable `{its}` not understood", "Promise._notify")
+        defs = [n for n in ncfg.nodes if n.kind == "stmt" and isinstance(n.ast, (ast.Assign, ast.AnnAssign)) and src(n.ast.targets[0] if isinstance(n.ast, ast.Assign) else n.ast.target) == its and n.ast.value is not None]
+        adefs = [(n, src(n.ast.value)) for n in defs if src(n.ast.value) in ("self._resolvers", "self._rejectors")]
+        if not adefs:
+            raise AnalysisError(f"_notify: definition of `{its}` from a callback list not found", "Promise._notify")
+        for d, attr in adefs:
+            rebinds = [n for n in ncfg.nodes if n.kind == "stmt" and isinstance(n.ast, ast.Assign) and src(n.ast.targets[0]) == attr and src(n.ast.value) in ("[]", "list()")]
+            ok = bool(rebinds) and ncfg.must_pass(d, rebinds, targets=[lp])
+            r3.check(ok, f"{m.rel}:Promise._notify:{attr}", f"`{its} = {attr}` is iterated while `{attr}` still refers to the same list (it is not rebound to a fresh list between the alias and the loop on every path): a then() issued from inside a callback re-enters _notify, so callbacks run twice or are lost", m.rel, lp.lineno)
+        # the other list is discarded, not kept for a later (impossible) outcome
+    t_nf = src(nf)
+    r3.check(("self._rejectors.clear()" in t_nf or "self._rejectors = []" in t_nf) and ("self._resolvers.clear()" in t_nf or "self._resolvers = []" in t_nf), f"{m.rel}:Promise._notify:discard-other", "the callbacks of the outcome that did not happen are not discarded", m.rel, nf.lineno)
     g = [n for n in nf.body if isinstance(n, ast.If)]
     r3.check(bool(g) and src(g[0].test) == "self.is_pending" and any(isinstance(b, ast.Return) for b in g[0].body), f"{m.rel}:Promise._notify:pending-guard", "_notify does not return immediately for a pending promise", m.rel, nf.lineno)
 
